@@ -594,5 +594,11 @@ M("c16-intersection-y-uses-ax", "C16", "cola/libavoid/geometry.cpp",
 
 # ---------------------------------------------------------------- C12 centre pin
 M("c12-revert-centre-pin", "C12", "cola/libavoid/hyperedgetree.cpp",
-  "                    if ((ps.size() > 1) &&\n                            (ps[ps.size() - 1] == ps[ps.size() - 2]))",
+  "                    if (prevNode->isPinDummyEndpoint &&\n                            !conn->m_display_route.ps.empty())",
   "                    if (prevNode->point == nextNode->point)", mention=["TREE-WRITEBACK", "centre pin terminal"])
+M("c12-dedupe-by-route-points", "C12", "cola/libavoid/hyperedgetree.cpp",
+  "                    if (prevNode->isPinDummyEndpoint &&\n                            !conn->m_display_route.ps.empty())",
+  "                    if ((conn->m_display_route.ps.size() > 1) &&\n                            (conn->m_display_route.ps[conn->m_display_route.ps.size() - 1] == conn->m_display_route.ps[conn->m_display_route.ps.size() - 2]))",
+  mention=["TREE-WRITEBACK", "entered in the other dimension"])
+M("c12-partner-copy-not-flagged", "C12", "cola/libavoid/mtst.cpp",
+  "                prevNode->isPinDummyEndpoint = true;", "                prevNode->visited = false;", mention=["DUMMY-NODES-FLAGGED"])
